@@ -30,6 +30,7 @@ type enum struct {
 }
 type param struct{ Name, Type string }
 type endpoint struct {
+	Tags   []string // ~tag patterns
 	Name   string
 	Params []param
 	Attrs  []kv
@@ -49,6 +50,7 @@ type restEp struct {
 }
 type kv struct{ K, V string }
 type app struct {
+	Tags  []string
 	Name  string // may be "Ns :: leaf"
 	Attrs []kv
 	Eps   []endpoint
@@ -115,7 +117,7 @@ func between(r *common.Rng, lo, hi int) int { return lo + r.Intn(hi-lo+1) }
 func genModel(r *common.Rng, size int) *model {
 	lo, hi := 2, 2+size*2
 	m := &model{Project: "Proj", SeqProj: "Seqs", Group: "team"}
-	nApps := between(r, lo+1, hi+2)
+	nApps := between(r, lo+1, hi+1)
 	leaves := pick(r, leafPool, nApps)
 	nss := pick(r, nsPool, 2+size)
 	names := make([]string, nApps)
@@ -135,10 +137,13 @@ func genModel(r *common.Rng, size int) *model {
 		j := r.Intn(i + 1)
 		names[i], names[j] = names[j], names[i]
 	}
-	teams := pick(r, valPool, 2+r.Intn(2))
+	teams := pick(r, valPool, between(r, lo, hi+1))
 	for i, n := range names {
 		a := app{Name: n}
 		a.Attrs = append(a.Attrs, kv{m.Group, teams[i%len(teams)]})
+		if r.Bool() {
+			a.Tags = pick(r, tagPool, between(r, 2, 2+hi))
+		}
 		for _, k := range pick(r, attrPool, between(r, lo, hi)) {
 			a.Attrs = append(a.Attrs, kv{k, valPool[r.Intn(len(valPool))]})
 		}
@@ -200,6 +205,9 @@ func genModel(r *common.Rng, size int) *model {
 			for _, k := range pick(r, attrPool, between(r, lo, hi)) {
 				e.Attrs = append(e.Attrs, kv{k, valPool[r.Intn(len(valPool))]})
 			}
+			if r.Chance(2, 3) {
+				e.Tags = pick(r, tagPool, between(r, 2, 2+hi))
+			}
 			nc := between(r, 1, 2+size)
 			for c := 0; c < nc; c++ {
 				// calls go "forward" only so that call graphs are acyclic (cycles are C13/C14/C20 matter)
@@ -215,9 +223,9 @@ func genModel(r *common.Rng, size int) *model {
 			}
 			a.Eps = append(a.Eps, e)
 		}
-		paths := pick(r, pathPool, between(r, 2, 3))
+		paths := pick(r, pathPool, between(r, 1, 2))
 		for _, p := range paths {
-			ms := pick(r, methods, between(r, 1, 2))
+			ms := pick(r, methods, 1+r.Intn(4)/3)
 			for _, me := range ms {
 				re := restEp{Path: p, Method: me}
 				for _, q := range pick(r, fieldPool, between(r, lo, hi)) {
@@ -274,16 +282,21 @@ func genModel(r *common.Rng, size int) *model {
 	return m
 }
 
-func renderAttrs(as []kv) string {
-	if len(as) == 0 {
+func renderAttrs(as []kv, tags ...string) string {
+	if len(as) == 0 && len(tags) == 0 {
 		return ""
 	}
-	p := make([]string, len(as))
-	for i, a := range as {
-		p[i] = fmt.Sprintf("%s=%q", a.K, a.V)
+	var p []string
+	for _, a := range as {
+		p = append(p, fmt.Sprintf("%s=%q", a.K, a.V))
+	}
+	for _, t := range tags {
+		p = append(p, "~"+t)
 	}
 	return " [" + strings.Join(p, ", ") + "]"
 }
+
+var tagPool = []string{"rest", "Soap", "db", "MQ", "batch", "Zed", "a1"}
 
 func (m *model) render() string {
 	var sb strings.Builder
@@ -293,7 +306,7 @@ func (m *model) render() string {
 		sb.WriteString("\n")
 	}
 	for _, a := range m.Apps {
-		w(0, "%s%s:", a.Name, renderAttrs(a.Attrs))
+		w(0, "%s%s:", a.Name, renderAttrs(a.Attrs, a.Tags...))
 		for _, e := range a.Eps {
 			ps := ""
 			if len(e.Params) > 0 {
@@ -303,7 +316,7 @@ func (m *model) render() string {
 				}
 				ps = "(" + strings.Join(pp, ", ") + ")"
 			}
-			w(1, "%s%s%s:", e.Name, ps, renderAttrs(e.Attrs))
+			w(1, "%s%s%s:", e.Name, ps, renderAttrs(e.Attrs, e.Tags...))
 			for _, c := range e.Calls {
 				w(2, "%s <- %s", c[0], c[1])
 			}
@@ -371,7 +384,7 @@ func (m *model) render() string {
 		}
 		w(0, "")
 	}
-	w(0, "%s [appfmt=\"%%(appname)\"]:", m.Project)
+	w(0, "%s [appfmt=\"%%(appname)\", epfmt=\"%%(patterns)\"]:", m.Project)
 	for _, v := range m.Views {
 		w(1, "%s%s:", v.Name, renderAttrs(v.Attrs))
 		for _, a := range v.Apps {
